@@ -107,6 +107,10 @@ std::vector<Target> targets() {
   }
   t.push_back({"cpc", "bigcfg_sparse", "bytes", cpc_big_image, bytes_path(cpc_bytes)});
   t.push_back({"cpc", "bigcfg_sparse", "stream", cpc_big_image, stream_path(cpc_stream)});
+  // an empty image that carries the HAS_HIP flag (written by other implementations) is accepted as well
+  BuildFn eh = [](Rng& r, bool T) { Bytes img = cpc_image(r, T, 0, false); img[5] |= 0x04; return img; };
+  t.push_back({"cpc", "legacy_empty_with_hip_flag", "bytes", eh, bytes_path(cpc_bytes)});
+  t.push_back({"cpc", "legacy_empty_with_hip_flag", "stream", eh, stream_path(cpc_stream)});
   return t;
 }
 
